@@ -545,7 +545,7 @@ func progVariants(mode string, depth int, inGroup bool) []refmodel.Stmt {
 			v = append(v, refmodel.Stmt{Kind: "route", K: 0, Via: "slash"})
 		}
 		v = append(v, refmodel.Stmt{Kind: "controller", Prefix: "/c", K: 0}, refmodel.Stmt{Kind: "controller", Prefix: "/c", K: 1, Spare: true})
-		v = append(v, refmodel.Stmt{Kind: "resource", Prefix: "/", K: 0}, refmodel.Stmt{Kind: "resource", Prefix: "/api/", K: 1})
+		v = append(v, refmodel.Stmt{Kind: "resource", Prefix: "/", K: 0}, refmodel.Stmt{Kind: "resource", Prefix: "/Api/", K: 1})
 	}
 	if depth < len(prefixes) {
 		for _, p := range prefixes[depth] {
